@@ -419,7 +419,11 @@ def check_listing(rep, repo, f, sec, sort, line_items, pa_c):
         # selection form: accum(array(n, i, na(i)); setidx[key] line(p) {PA})
         sel = student_sel(arr)
         if sel is None:
-            if bad is not None:
+            filt = arr[0] == 'comp' and [g for b_, g in arr[1] if g != TRUE]
+            if filt:
+                rep.fail(rule, f.where, 'the student listing has one line per student (unassigned students included)', got='lines are produced for a filtered list: %s' % show(filt[0])[:120],
+                         want='num_students lines', construct='student listing over a filtered list')
+            elif bad is not None:
                 rep.inconclusive(rule, f.where, 'the student listing is inside the aggregate algebra', got=bad)
             else:
                 rep.fail(rule, f.where, 'the student listing has one line per student: the line of the student\'s pair placed at the student\'s own index, "no assignment" elsewhere',
